@@ -260,13 +260,50 @@ def loopRead (strict : Bool) (es : List Slot) (ts : List Tok) : Sev × List Val 
 /-- `strict` as received by the parts of a complex instance -/
 def partStrict (fileStrict : Bool) : Bool := match complexPartStrict with | none => fileStrict | some b => b
 
+/-- how `STEPcomplex::STEPread` lets the errors of the parts reach the instance's own error -/
+inductive CxMerge where
+  /-- not at all: only the error of the first part (the `STEPcomplex` object the read was called on) survives -/
+  | none
+  /-- the whole error of every other part is appended (rejected repair C15-3: a sibling part's derived attribute then counts) -/
+  | all
+  /-- the errors of the other parts' attributes are appended, attributes flagged derived excepted (repair C15-8) -/
+  | nonDerivedAttrs
+  deriving DecidableEq, Repr, Inhabited
+
+def CxMerge.ofName (s : String) : CxMerge :=
+  if s = "all" then .all else if s = "nonDerivedAttrs" then .nonDerivedAttrs else .none
+
+/-- the two places that decide what a complex instance's attribute errors do to the file: the merge in
+    `STEPcomplex::STEPread` and whether `STEPfile::ReadInstance` hands the instance's error to `AppendEntityErrorMsg` -/
+structure CxShape where
+  merge : CxMerge
+  reports : Bool
+  deriving DecidableEq, Repr, Inhabited
+
+/-- the shape of the code at hand (regenerated) -/
+def codeShape : CxShape := ⟨CxMerge.ofName complexMerge, readInstComplexReportsError⟩
+
+/-- severities of the attributes of one part that are not flagged derived, merged with the instance's threshold -/
+def partAttrSev (strict : Bool) : Sev → List AttrD → List Tok → Sev
+  | acc, a :: as, t :: ts =>
+    partAttrSev strict (if a.derived then acc else mergeAttr acc (attrRead (attrStrict strict) a t).1) as ts
+  | acc, _, _ => acc
+
 /-- `STEPcomplex::STEPread`: parts in the order head, rest; head = the part that is `this` -/
-def complexRead (strict : Bool) (parts : List (List AttrD × List Tok)) : Sev × List (List Val) :=
+def complexReadS (S : CxShape) (strict : Bool) (parts : List (List AttrD × List Tok)) : Sev × List (List Val) :=
   let rs := parts.map (fun p => instRead (partStrict strict) p.1 p.2)
-  let sev := match rs with
+  let sev := match parts with
     | [] => Sev.null
-    | h :: rest => if complexMergesParts then rest.foldl (fun acc r => Sev.greater acc r.1) h.1 else h.1
+    | h :: rest =>
+      let hs := (instRead (partStrict strict) h.1 h.2).1
+      match S.merge with
+      | .none => hs
+      | .all => rest.foldl (fun acc p => Sev.greater acc (instRead (partStrict strict) p.1 p.2).1) hs
+      | .nonDerivedAttrs => Sev.greater hs (rest.foldl (fun acc p => partAttrSev (partStrict strict) acc p.1 p.2) .null)
   (sev, rs.map (·.2))
+
+def complexRead (strict : Bool) (parts : List (List AttrD × List Tok)) : Sev × List (List Val) :=
+  complexReadS codeShape strict parts
 
 /-- `strict` as received by `obj->STEPread` in `STEPfile::ReadInstance` -/
 def fileStrictFor (complex : Bool) (fileStrict : Bool) : Bool :=
@@ -279,27 +316,35 @@ structure InstResult where
   complex : Bool
   deriving DecidableEq, Repr, Inhabited
 
-def reportsError (r : InstResult) : Bool :=
-  if r.complex then readInstComplexReportsError else readInstSimpleReportsError
+def reportsErrorS (S : CxShape) (r : InstResult) : Bool :=
+  if r.complex then S.reports else readInstSimpleReportsError
 
 /-- `AppendEntityErrorMsg` effect on the file's severity -/
 def entityMerge (e s : Sev) : Sev :=
   if s = .null then e else Sev.greater e (if s.lt sevEntityFloorBelow then sevEntityFloor else s)
 
-def afterInst (e : Sev) (r : InstResult) : Sev := if reportsError r then entityMerge e r.sev else e
+def afterInstS (S : CxShape) (e : Sev) (r : InstResult) : Sev := if reportsErrorS S r then entityMerge e r.sev else e
 
 /-- the severity `ReadData2` still finds on the instance (AppendEntityErrorMsg clears it) -/
-def leftOver (r : InstResult) : Sev := if reportsError r then .null else r.sev
-def rd2Invalid (r : InstResult) : Bool := (leftOver r).lt rd2InvalidBelow || leftOver r = rd2IncompleteAt
-def rd2Valid (r : InstResult) : Bool :=
-  !((leftOver r).lt rd2InvalidBelow) && !(leftOver r = rd2IncompleteAt) && !(leftOver r = rd2WarningAt)
+def leftOverS (S : CxShape) (r : InstResult) : Sev := if reportsErrorS S r then .null else r.sev
+def rd2InvalidS (S : CxShape) (r : InstResult) : Bool :=
+  (leftOverS S r).lt rd2InvalidBelow || leftOverS S r = rd2IncompleteAt
+def rd2ValidS (S : CxShape) (r : InstResult) : Bool :=
+  !((leftOverS S r).lt rd2InvalidBelow) && !(leftOverS S r = rd2IncompleteAt) && !(leftOverS S r = rd2WarningAt)
 
 /-- `STEPfile::Error().severity()` after `ReadExchangeFile` of a file whose header, section keywords and entity names
     are fine (every instance created in pass 1) -/
-def fileSev (rs : List InstResult) : Sev :=
-  let e := rs.foldl afterInst .null
-  let e := if rs.any rd2Invalid then Sev.greater e rd2SevWhenInvalid else e
-  if rs.all rd2Valid then e else Sev.greater e sevNotAllValid
+def fileSevS (S : CxShape) (rs : List InstResult) : Sev :=
+  let e := rs.foldl (afterInstS S) .null
+  let e := if rs.any (rd2InvalidS S) then Sev.greater e rd2SevWhenInvalid else e
+  if rs.all (rd2ValidS S) then e else Sev.greater e sevNotAllValid
+
+def reportsError (r : InstResult) : Bool := reportsErrorS codeShape r
+def afterInst (e : Sev) (r : InstResult) : Sev := afterInstS codeShape e r
+def leftOver (r : InstResult) : Sev := leftOverS codeShape r
+def rd2Invalid (r : InstResult) : Bool := rd2InvalidS codeShape r
+def rd2Valid (r : InstResult) : Bool := rd2ValidS codeShape r
+def fileSev (rs : List InstResult) : Sev := fileSevS codeShape rs
 
 /-- p21read's exit status after reading (before it attempts to write) -/
 def p21readExit (e : Sev) : Nat := if e.le p21readExitThreshold then 1 else 0
